@@ -153,10 +153,17 @@ def run(prog, rep):
     if okr:
         dk = guards.key(dec[0])
         for (f, c) in rel:
-            if not (guards.lookup(f, dk) == 1 or any(fk == dk and fop == "!=" and fv == 0 for (fk, fop, fv) in f)):
+            # the result itself, or a local holding it (`is_last = dec_and_test (...); if (is_last != TRUE) return;`)
+            names = [dk] + [fk for (fk, fop, fv) in f if fop == "=:" and fv == dk]
+            if not any(guards.lookup(f, k_) == 1 or any(fk == k_ and fop == "!=" and fv == 0 for (fk, fop, fv) in f) for k_ in names):
                 okr = False
-    freed = set(guards.key(c["args"][0]) for (f, c) in rel)
     p0 = un.param_names()[0]
+    freed = set()
+    for (f, c) in rel:
+        a = un.resolve(c["args"][0])
+        freed.add(guards.key(a))
+        if a is not None and a["k"] == "ref" and a["name"] in un.value_aliases(p0):
+            freed.add(p0)
     okr = okr and any(k.endswith("->name") for k in freed) and (p0 in freed or "base_thread" in freed)
     rep.ob("C05.2", un, "release", okr, "the name and the handle are released exactly on the path where dec_and_test returned TRUE" if okr else
            "unref releases the handle without dec_and_test having returned TRUE, or does not release name and handle", un.loc[0])
